@@ -183,6 +183,10 @@ def parse_type(s) -> T:
         return TTuple([parse_type(p) for p in _split_top(s[6:-1])])
     if s.startswith("obj:"):
         return TObj(s[4:])
+    if s.startswith("struct:"):
+        t = TAny()
+        t.structfmt = s[7:]
+        return t
     raise ValueError(f"bad type string {s!r}")
 
 
